@@ -2,19 +2,23 @@
 
 Streams
   unit    : Signature.can_assign(sig_exp, sig_act) on Signatures of real function objects      == model acc
-  entry   : CallableValue(sig_exp).can_assign(KnownValue(g)), KnownValue(f).can_assign(KnownValue(g)) == model acc
+  entry   : CallableValue(sig_exp).can_assign(KnownValue(g)), KnownValue(f).can_assign(KnownValue(g)),
+            UnboundMethodValue(m of a class).can_assign(KnownValue(g))                           == model acc
+  hier, mro: class hierarchies through the override route (harness/props/c07_hier.py)
   proto   : `x: P = g` with a Protocol `__call__` checked by pyanalyze (incompatible_assignment)  == model acc
   override: a method overriding a base-class method (incompatible_override)                      == model acc
   overload: OverloadedSignature on either side                                                   == model ovCanAssign
   spec    : Lean `cpyBind`-based counterexample search == the same search done with real calls (behavioural and typed)
   tables  : Generated/SigTypes.lean regenerated from the live tree (translate), obligations by `decide`
+  routes  : Generated/SigRoutes.lean = AST scan of the live tree for every call site through which two signatures
+            reach Signature.can_assign; obligation `routes_pinned` (a new or removed route is noticed)
 Property search (oracle = CPython, real calls with sentinel arguments that report where they landed):
   for every pair accepted by any route, every call shape with <=3 positionals and <=3 keywords over the
   parameter names of both headers plus a foreign name: exp binds and act raises TypeError => candidate;
   both bind and an argument lands on a parameter whose annotation is not a supertype (isinstance +
   int->float promotion on representative objects) => candidate; return annotation not covariant => candidate.
 """
-import itertools, json, os
+import itertools, json, os, re
 
 from harness.common import lean, pya
 from harness.props import c05
@@ -22,7 +26,8 @@ from harness.props import c05
 PROP = "C07"
 NAMESPACE = "Pya.C07"
 LEAN_PROP = "PyaModel.Props.C07"
-LEAN_TARGETS = ["PyaModel.Spec.SigAssignSpec", "PyaModel.Generated.SigTypes"]
+LEAN_TARGETS = ["PyaModel.Spec.SigAssignSpec", "PyaModel.Spec.OverrideSpec", "PyaModel.Generated.SigTypes",
+                "PyaModel.Generated.SigRoutes"]
 ANCHORS = [
     ("pyanalyze/signature.py", "Signature.can_assign"),
     ("pyanalyze/signature.py", "OverloadedSignature.can_assign"),
@@ -31,6 +36,11 @@ ANCHORS = [
     ("pyanalyze/value.py", "CallableValue.can_assign"),
     ("pyanalyze/value.py", "KnownValue.can_assign"),
     ("pyanalyze/name_check_visitor.py", "NameCheckVisitor._can_assign_to_base_callable"),
+    ("pyanalyze/name_check_visitor.py", "NameCheckVisitor._check_for_incompatible_overrides"),
+    ("pyanalyze/name_check_visitor.py", "NameCheckVisitor._get_base_class_attributes"),
+    ("pyanalyze/name_check_visitor.py", "NameCheckVisitor._can_assign_to_base"),
+    ("pyanalyze/name_check_visitor.py", "NameCheckVisitor._can_assign_to_base_property"),
+    ("pyanalyze/signature.py", "Signature.bind_self"),
 ]
 RULE = (
     "pairs (expected, actual) of def headers: exhaustive over all headers with <= N parameters (all kind sequences "
@@ -432,10 +442,21 @@ def call_txt(npos, ks):
 
 # ---------------------------------------------------------------- implementation streams
 def unit_and_entry(pairs, checker, with_entry):
-    from pyanalyze.value import CallableValue, CanAssignError, KnownValue
+    from pyanalyze.stacked_scopes import Composite
+    from pyanalyze.value import CallableValue, CanAssignError, KnownValue, TypedValue, UnboundMethodValue
 
-    unit, e1, e2 = [], [], []
+    unit, e1, e2, e3 = [], [], [], []
     get = checker.arg_spec_cache.get_argspec
+    holders = {}
+
+    def unbound(E):
+        """UnboundMethodValue for a method `m(self, <E>)` of a fresh class (route value.py UnboundMethodValue.can_assign)."""
+        um = holders.get(E)
+        if um is None:
+            ns = {}
+            exec("class K:\n    def m%s: return locals()" % with_self(E), ns)
+            um = holders[E] = UnboundMethodValue("m", Composite(TypedValue(ns["K"])))
+        return um
 
     def verdict(thunk):
         try:
@@ -453,7 +474,8 @@ def unit_and_entry(pairs, checker, with_entry):
         else:
             e1.append(None)
             e2.append(None)
-    return unit, e1, e2
+        e3.append(verdict(lambda: unbound(E).can_assign(KnownValue(g), checker)) if i % 5 == 0 else None)
+    return unit, e1, e2, e3
 
 
 def with_self(sig):
@@ -580,7 +602,66 @@ def live_tables(checker):
     }
 
 
+# ---------------------------------------------------------------- translator: routes into the kernel
+ROUTE_CALLEES = {"_check_for_incompatible_overrides", "_get_base_class_attributes", "_can_assign_to_base",
+                 "_can_assign_to_base_callable", "_can_assign_to_base_property", "_signatures_overlap",
+                 "can_assign_var_positional", "can_assign_var_keyword", "can_assign_through_check_call"}
+_SIG_RECV = re.compile(r"(sig|signature|_bound)\w*$")
+
+
+def live_routes(repo):
+    """Every call site, in the non-test modules of the live tree, through which two signatures reach
+    Signature.can_assign: calls of the named route functions, and `.can_assign(...)` calls whose receiver is a
+    signature (receiver text ends in *sig*/*signature*/*_bound, is a `CallableValue(...)` construction, is `self`
+    inside Signature/OverloadedSignature.can_assign, or any receiver inside _signatures_overlap).
+    Returns a sorted list of (file, enclosing function, callee)."""
+    import ast
+    out = []
+    d = os.path.join(repo, "pyanalyze")
+    for fn in sorted(os.listdir(d)):
+        if not fn.endswith(".py") or fn.startswith("test_"):
+            continue
+        tree = ast.parse(open(os.path.join(d, fn)).read())
+
+        def walk(node, qual):
+            for ch in ast.iter_child_nodes(node):
+                q = qual
+                if isinstance(ch, (ast.FunctionDef, ast.AsyncFunctionDef, ast.ClassDef)):
+                    q = (qual + "." if qual else "") + ch.name
+                if isinstance(ch, ast.Call):
+                    f = ch.func
+                    if isinstance(f, ast.Attribute):
+                        recv = ast.unparse(f.value)
+                        if f.attr == "can_assign" and (
+                                _SIG_RECV.search(recv) or recv.startswith("CallableValue(")
+                                or qual == "_signatures_overlap"
+                                or (recv == "self" and qual in ("Signature.can_assign", "OverloadedSignature.can_assign"))):
+                            out.append((fn, qual, "can_assign"))
+                        elif f.attr in ROUTE_CALLEES:
+                            out.append((fn, qual, f.attr))
+                        elif f.attr == "check_call_preprocessed" and qual == "CallableValue.can_assign":
+                            out.append((fn, qual, f.attr))
+                    elif isinstance(f, ast.Name) and f.id in ROUTE_CALLEES:
+                        out.append((fn, qual, f.id))
+                walk(ch, q)
+
+        walk(tree, "")
+    return sorted(out)
+
+
 def translate(ctx):
+    translate_tables(ctx)
+    routes = live_routes(pya.REPO)
+    out = ["/-! GENERATED by harness/props/c07.py (translate) from the live /repo tree on every run. Do not edit.",
+           "Call sites through which two signatures reach `Signature.can_assign` (file, enclosing function, callee). -/",
+           "namespace Pya.C07", "",
+           "def liveRoutes : List (String × String × String) :=\n  [" +
+           ",\n   ".join('("%s", "%s", "%s")' % r for r in routes) + "]", "", "end Pya.C07", ""]
+    lean.write_if_changed(os.path.join(lean.LEAN, "PyaModel", "Generated", "SigRoutes.lean"), "\n".join(out))
+    ctx.extra["routes"] = ["%s:%s -> %s" % r for r in routes]
+
+
+def translate_tables(ctx):
     tabs = live_tables(pya.make_checker())
 
     def show(m):
@@ -621,7 +702,7 @@ def evaluate(ctx, pairs, with_model=True, e2e_every=None, spec_every=7):
     n = len(pairs)
     if e2e_every is None:
         e2e_every = max(1, n // ctx.n(900, 12000))
-    unit, ent1, ent2 = unit_and_entry(pairs, checker, lambda i: True)
+    unit, ent1, ent2, ent3 = unit_and_entry(pairs, checker, lambda i: True)
     e2e_idx = [i for i in range(n) if i % e2e_every == 0 or unit[i] == "1" and i % max(1, e2e_every // 3) == 0]
     proto, ovr = e2e_routes([pairs[i] for i in e2e_idx])
     proto_at = dict(zip(e2e_idx, proto))
@@ -647,7 +728,8 @@ def evaluate(ctx, pairs, with_model=True, e2e_every=None, spec_every=7):
             ctx.corr("unit")
             if unit[i] != acc:
                 ctx.disagree("unit", case, unit[i], acc)
-            for name, got in (("entry", ent1[i]), ("entry", ent2[i]), ("proto", proto_at.get(i)), ("override", ovr_at.get(i))):
+            for name, got in (("entry", ent1[i]), ("entry", ent2[i]), ("entry", ent3[i]), ("proto", proto_at.get(i)),
+                              ("override", ovr_at.get(i))):
                 if got is None:
                     continue
                 ctx.corr(name)
@@ -656,7 +738,7 @@ def evaluate(ctx, pairs, with_model=True, e2e_every=None, spec_every=7):
         if i % 1499 == 0:
             ctx.sample({"exp": case["exp"], "act": case["act"], "pyanalyze_accepts": unit[i],
                         "model": model[i] if model else None})
-        routes = [unit[i], ent1[i], ent2[i], proto_at.get(i), ovr_at.get(i)]
+        routes = [unit[i], ent1[i], ent2[i], ent3[i], proto_at.get(i), ovr_at.get(i)]
         accepted = "1" in routes
         conforms = acc is None or all(r is None or r == acc for r in routes)
         need_oracle = accepted or (cex not in (None, "NA"))
@@ -712,17 +794,27 @@ def all_pairs(ctx):
 
 
 def run(ctx):
+    from harness.props import c07_hier
     evaluate(ctx, all_pairs(ctx))
+    c07_hier.run_hier(ctx)
     overload_stream(ctx, pya.make_checker(), c05.all_sigs(3), True)
     malformed(ctx)
 
 
 def run_impl_only(ctx):
+    from harness.props import c07_hier
     evaluate(ctx, all_pairs(ctx), with_model=False)
+    c07_hier.run_hier(ctx, with_model=False)
 
 
 def replay(ctx, data):
     case = data["case"]
+    if "hier" in case:
+        from harness.props import c07_hier
+        c07_hier.evaluate_hiers(ctx, [c07_hier.from_json(case["hier"])])
+        print(json.dumps({"case": {"classes": case["classes"]}, "candidates": ctx.candidates, "broken": ctx.broken},
+                         indent=1, default=str))
+        return 1 if (ctx.candidates or ctx.broken) else 0
     if "E" not in case:
         print(json.dumps({"note": "replay file carries no pair", "data": data}, indent=1, default=str))
         return 1
